@@ -26,6 +26,16 @@ The FIRST verdict is that of the checks as they stood when the seed arrived (the
 checks had not seen it); "after strengthening" is the verdict of the committed checks.
 
 {table}
+The rows `<id>-agentB` are a SECOND wave, seeded after the strengthening described below and in 6.3:
+again one fresh sub-agent per property, given the property text plus one line on what the first
+wave had done there ("choose a different file/function and a different kind of trigger"). Their
+first verdicts measure the strengthened checks on changes nobody here had seen: 17 of 20 were
+reported by the property's own check, 3 were missed (C05, C07, C15) and led to the last three
+items of the list below. (Second-wave agents built only the libraries and the neighbouring unit
+tests; the complete `ctest` was run here for every seed before it was kept. Checks of OTHER
+properties that were run on a seed out of curiosity and do not report it - e.g. C03 on the C18
+`min_element` seed - are listed as "MISSED" in the table too; only the seed's own property counts.)
+
 What the misses taught, and what was changed:
 
 * **C05** (tie `step limit == boundary distance`): the lattice of C01 had no exact ties - start
@@ -48,6 +58,19 @@ What the misses taught, and what was changed:
   the state first (`geo.is_on_boundary() == result.boundary`, Stepper use inside named cases, ASan
   report/death callbacks), and the driver reports ANY shard that ends without a verdict as
   violation `abnormal-exit:<part>` instead of ending the run as broken.
+* **C05, second wave** (tracking cut applied on a boundary-limited step: the particle is stopped
+  ON the surface): no root of the lattice arrived at a boundary with less than the tracking cut.
+  Added e-/e+ roots that reach the face of the inner box with 0.005 MeV (below the 0.02 MeV cut)
+  and with 0.025 MeV; the seed is then reported by the boundary-state claim of the first wave.
+* **C15, second wave** (gamma distribution, `alpha == 1` fast path using the scale as a rate): the
+  quadrature lattice paired each shape letter with ONE scale letter, and `alpha = 1` only with
+  `beta = 1`, where rate and scale coincide. Parameter letters are now a full cross (shape x scale);
+  the general lesson - cross the special values of different parameters, do not pair them - was
+  checked for the other two-parameter families.
+* **C07, second wave** (per-stream primary buffer replays the tail of an earlier, larger batch):
+  every event of the C06 and C07 alphabets had the same number of primaries. Events now carry 5, 3
+  and 4 primaries, so that every history / stream assignment with two events on one state contains
+  a smaller batch after a larger one.
 """
 
 SEC63 = """### 6.3 Coverage review and strengthening (mutants under `/verif/mutants/<id>/`)
